@@ -9,6 +9,10 @@ class Conj (α : Type) where
 /-- entries `α` over reals `ρ` (Float/Float in the driver, ℝ/𝕜 in the proofs) -/
 class Entry (ρ α : Type) extends Add α, Sub α, Mul α, Zero α, Conj α where
   ofReal : ρ → α
+  /-- division of an entry by a real (`array / scalar`) -/
+  divReal : α → ρ → α
+  /-- squared modulus -/
+  normSq : α → ρ
 
 structure Mat (n m : Nat) (α : Type) where
   data : Vector (Vector α m) n
@@ -32,6 +36,10 @@ def conjT [Conj α] (A : Mat n m α) : Mat m n α := ofFn fun j i => Conj.conj (
 
 def scaleCols [Mul α] (A : Mat n m α) (s : Fin m → α) : Mat n m α := ofFn fun i j => A.get i j * s j
 
+/-- every column divided by a real (`A / d` with `d` along the columns) -/
+def divCols {ρ : Type} [Entry ρ α] (A : Mat n m α) (d : Fin m → ρ) : Mat n m α :=
+  ofFn fun i j => Entry.divReal (A.get i j) (d j)
+
 def sub [Sub α] (A B : Mat n m α) : Mat n m α := ofFn fun i j => A.get i j - B.get i j
 
 def add [Add α] (A B : Mat n m α) : Mat n m α := ofFn fun i j => A.get i j + B.get i j
@@ -47,4 +55,4 @@ end XM
 
 instance : XM.Conj Float := ⟨id⟩
 instance : Zero Float := ⟨0.0⟩
-instance : XM.Entry Float Float := { ofReal := id }
+instance : XM.Entry Float Float := { ofReal := id, divReal := fun x r => x / r, normSq := fun x => x * x }
